@@ -9,11 +9,9 @@ import (
 	"strings"
 
 	"github.com/nspcc-dev/neo-go/pkg/core/fee"
-	"github.com/nspcc-dev/neo-go/pkg/util"
 	"github.com/nspcc-dev/neo-go/pkg/vm"
 	"github.com/nspcc-dev/neo-go/pkg/vm/opcode"
 	"github.com/nspcc-dev/neo-go/pkg/vm/stackitem"
-	"github.com/nspcc-dev/neo-go/pkg/vm/vmstate"
 )
 
 // c13Ser serialises items (top of stack first) keeping sharing: tags as in VM/Obs.v.
@@ -133,6 +131,8 @@ type c13Result struct {
 	Steps  int    `json:"steps"`
 	Panic  string `json:"panic,omitempty"`
 	ErrStr string `json:"err,omitempty"`
+	Trace  uint64 `json:"trace,omitempty"` // hash of (offset, opcode, refs, gas pico, stack and invocation depth, try depth) before every instruction
+	Refs   []int  `json:"-"`               // VM.refs before each of the first instructions
 }
 
 // c13NewVM: vm.New() with the ledger's price getter (fee.Opcode(base, op)) and a gas limit in datoshi.
@@ -143,26 +143,9 @@ func c13NewVM(base int64, limitDatoshi int64) *vm.VM {
 	return v
 }
 
-// c13Exec runs one script to completion.
+// c13Exec runs one script to completion on a fresh VM.
 func c13Exec(script []byte, base, limitDatoshi int64) c13Result {
-	var res c13Result
-	v := c13NewVM(base, limitDatoshi)
-	v.SetOnExecHook(func(_ util.Uint160, _ int, _ opcode.Opcode) { res.Steps++ })
-	v.LoadScript(script)
-	var err error
-	res.Panic = catch(func() { err = v.Run() })
-	if err != nil {
-		res.ErrStr = err.Error()
-		if len(res.ErrStr) > 120 {
-			res.ErrStr = res.ErrStr[:120]
-		}
-	}
-	res.Gas = v.GasConsumed()
-	if res.Panic == "" && v.State() == vmstate.Halt {
-		res.Halt = true
-		res.Stack = c13SerStack(v.Estack())
-	}
-	return res
+	return c13ExecOn(c13NewVM(base, limitDatoshi), script)
 }
 
 func (r c13Result) coq() string {
